@@ -1,0 +1,114 @@
+//go:build verif
+
+package buffer
+
+// Contracts for the deductive checks in /verif (comment-only; see /verif/DESIGN.md).
+
+/*@
+import escape "github.com/cockroachdb/redact/internal/escape"
+
+assume pure func utf8.RuneLen(r rune) (n int)
+  ensures n == -1 || (1 <= n && n <= 4)
+  ensures n == -1 <==> (r < 0 || r > 1114111 || (55296 <= r && r <= 57343))
+
+assume func utf8.EncodeRune(p []byte, r rune) (n int)
+  requires utf8.RuneLen(r) == -1 ==> len(p) >= 3
+  requires utf8.RuneLen(r) != -1 ==> len(p) >= utf8.RuneLen(r)
+  modifies mem(p)
+  ensures utf8.RuneLen(r) == -1 ==> n == 3
+  ensures utf8.RuneLen(r) != -1 ==> n == utf8.RuneLen(r)
+
+assume func makeSlice(n int) (s []byte)
+  requires n >= 0
+  modifies alloc
+  ensures len(s) == n && cap(s) == n && off(s) == 0 && fresh(s)
+
+invariant (b *Buffer)
+  ensures 0 <= b.validUntil && b.validUntil <= len(b.buf)
+
+func (b *Buffer) tryGrowByReslice(n int) (m int, ok bool)
+  requires n >= 0
+  ensures ok <==> n <= old(cap(b.buf)) - old(len(b.buf))
+  ensures ok ==> m == old(len(b.buf)) && len(b.buf) == old(len(b.buf)) + n && cap(b.buf) == old(cap(b.buf)) && ref(b.buf) == old(ref(b.buf)) && off(b.buf) == old(off(b.buf))
+  ensures !ok ==> b.buf == old(b.buf)
+  ensures b.validUntil == old(b.validUntil) && b.mode == old(b.mode) && b.markerOpen == old(b.markerOpen)
+  ensures memUnchanged()
+
+func (b *Buffer) grow(n int) (m int)
+  requires n >= 0 && n <= 1099511627776
+  ensures m == old(len(b.buf)) && len(b.buf) == old(len(b.buf)) + n
+  ensures b.validUntil == old(b.validUntil) && b.mode == old(b.mode) && b.markerOpen == old(b.markerOpen)
+
+func (b *Buffer) Grow(n int)
+  requires n >= 0 && n <= 1099511627776
+  ensures len(b.buf) == old(len(b.buf))
+  ensures b.validUntil == old(b.validUntil) && b.mode == old(b.mode) && b.markerOpen == old(b.markerOpen)
+
+func (b *Buffer) startRedactable()
+  ensures len(b.buf) >= 0
+  ensures b.validUntil == old(b.validUntil) && b.mode == old(b.mode)
+
+func (b *Buffer) endRedactable()
+  ensures b.validUntil == old(b.validUntil) && b.mode == old(b.mode)
+
+func (b *Buffer) startWrite()
+  requires inv(b)
+  ensures inv(b)
+  ensures b.mode == old(b.mode)
+
+func (b *Buffer) escapeToEnd(breakNewLines bool)
+  requires inv(b)
+  ensures inv(b)
+  ensures b.mode == old(b.mode) && b.markerOpen == old(b.markerOpen)
+
+func (b *Buffer) finalize()
+  requires inv(b)
+  ensures inv(b)
+  ensures b.mode == old(b.mode)
+
+func (b *Buffer) Write(p []byte) (n int, err error)
+  ensures n == len(p)
+  ensures b.mode == old(b.mode)
+
+func (b *Buffer) WriteString(s string) (n int, err error)
+  ensures n == len(s)
+  ensures b.mode == old(b.mode)
+
+func (b *Buffer) WriteByte(s byte) (err error)
+  ensures b.mode == old(b.mode)
+
+func (b *Buffer) WriteRune(s rune) (err error)
+  ensures b.mode == old(b.mode)
+
+func (b *Buffer) SetMode(newMode OutputMode)
+  ensures b.mode == newMode
+
+func (b *Buffer) GetMode() (m OutputMode)
+  modifies nothing
+  ensures m == b.mode
+
+func (b *Buffer) Reset()
+  ensures len(b.buf) == 0 && b.validUntil == 0 && b.mode == UnsafeEscaped && !b.markerOpen
+
+func (b *Buffer) Len() (n int)
+  modifies alloc
+  ensures n >= 0
+
+func (b *Buffer) Cap() (n int)
+  modifies nothing
+  ensures n == cap(b.buf)
+
+func (b *Buffer) TakeRedactableBytes() (r m.RedactableBytes)
+  ensures b.buf == nil && b.validUntil == 0 && b.mode == UnsafeEscaped
+
+func (b *Buffer) TakeRedactableString() (r m.RedactableString)
+  ensures b.buf == nil && b.validUntil == 0 && b.mode == UnsafeEscaped
+
+func (b Buffer) RedactableBytes() (r m.RedactableBytes)
+  modifies alloc
+  ensures len(r) >= 0
+
+func (b Buffer) RedactableString() (r m.RedactableString)
+  modifies alloc
+  ensures len(r) >= 0
+@*/
